@@ -64,8 +64,10 @@ func c08Profile(ac bool) func(c *sim.RunCtx) {
 				if !r.OK || r.Block.ID <= q || r.Block.Released || r.Block.Loc == nil || int(r.Size) != len(content) {
 					continue
 				}
+				// attributed by what was written, not by what the range holds now: a
+				// corruption may turn the copy of one small object into the bytes of another
 				off := r.Block.Loc.OffsetBytes + r.Off
-				if bytes.Equal(img[off:off+r.Size], content) {
+				if bytes.Equal(r.Data, content) && bytes.Equal(img[off:off+r.Size], content) {
 					return true
 				}
 			}
@@ -164,7 +166,7 @@ func c08Profile(ac bool) func(c *sim.RunCtx) {
 					for _, r := range w.e.putRecs {
 						if r.OK && r.Seq < op.InvokeSeq && r.Block.ID > qmax(w, w.s.Steps+1) && !r.Block.Released && int(r.Size) == len(w.m.objs[op.Obj].Content) {
 							off := r.Block.Loc.OffsetBytes + r.Off
-							if bytes.Equal(w.e.data.Visible()[off:off+r.Size], w.m.objs[op.Obj].Content) {
+							if bytes.Equal(r.Data, w.m.objs[op.Obj].Content) && bytes.Equal(w.e.data.Visible()[off:off+r.Size], w.m.objs[op.Obj].Content) {
 								// is it corrupted right now? (then NOT_FOUND after detection is fine)
 								c.Fail("newer-object-lost", "%s: NOT_FOUND although an intact copy lies in block incarnation #%d, newer than the quarantined incarnation #%d", op, r.Block.ID, qmax(w, w.s.Steps+1))
 								return
